@@ -335,6 +335,25 @@ def run_mutators(ns, mon, case):
     ns.init.constant_(t1, 2.0)
     if snap([t2.data]) != s_t2:
         viol.append(V("init:modified-other-tensor", "an initialiser changed a tensor it was not given"))
+    # a result computed under no_grad from tracked tensors is a constant: a later backward that uses it as an operand does not reach behind it
+    src_a = T(rng.standard_normal((3,)).astype(np.float32), requires_grad=True)
+    src_b = T(rng.standard_normal((3,)).astype(np.float32), requires_grad=True)
+    earlier = (src_b * 3.0).sum()
+    earlier.backward()
+    gb0 = src_b._grad.copy()
+    with ns.sg.no_grad():
+        const1 = src_a * 2.0                 # direct result
+        const2 = src_a * src_b               # direct result of two tracked tensors
+    wq = T(rng.standard_normal((3,)).astype(np.float32), requires_grad=True)
+    n += 1
+    try:
+        (ns.sg.mse_loss(wq * 1.5, const1).sum() + (wq * const2).sum()).backward()
+        if src_a._grad is not None:
+            viol.append(V("backward:reached-behind-a-no_grad-result", "a backward pass gave a gradient to a tensor that is only connected through a result computed under no_grad"))
+        if src_b._grad is None or not np.array_equal(src_b._grad, gb0):
+            viol.append(V("backward:changed-gradient-outside-the-graph", "a backward pass changed the gradient of a tensor outside the graph being differentiated (behind a no_grad result)"))
+    except Exception as e:
+        viol.append(V("backward:raises-with-no_grad-constant", f"backward raised {type(e).__name__} on a graph that uses a no_grad result as a constant", error=str(e)[:200]))
     # copy.deepcopy of a parameter / module that holds gradients: the copy owns its data AND its gradient buffer
     import copy as _copy
     lin_c = nn.Linear(3, 2)
@@ -383,7 +402,9 @@ def run_mutators(ns, mon, case):
             bn2 = nn.BatchNorm1d(3) if fresh else bn
             if toggle:
                 bn2.track_running_stats = False
-            bn2.eval()
+            holder = nn.Sequential(nn.Sequential(bn2))      # the mode is switched on a parent two levels up
+            holder.train()
+            holder.eval()
             rs = (bn2.running_mean.data.tobytes(), bn2.running_var.data.tobytes())
             for _ in range(3):
                 y2 = bn2(T(rng.standard_normal((5, 3)).astype(np.float32), requires_grad=True)); y2.sum().backward()
